@@ -333,7 +333,298 @@ def part_a(ctx, stats):
     return len(cases) + len(lab_cases) * 2 + len(ctypes) + len(mr) + len(me) + len(an)
 
 
+# --------------------------------------------------------------------------- statement-level programs
+# stmt: ("assign", x, src) ("aug", x, op, src) ("if", [(cond, body)...], else|None) ("while", cond, body)
+#       ("for", i, nsrc, body) ("return", src|None) ("write", src)
+# item: ("stmt", s) ("def", name, [param...], body) ("loop", body)
+HEADER = (
+    "from Reduino import target\n"
+    "from Reduino.Core import analog_read, digital_read\n"
+    "from Reduino.Communication import SerialMonitor\n"
+    "target(\"COM3\", upload=False)\n"
+    "mon = SerialMonitor(9600)\n"
+)
+MODEL_CTX = [[], [], ["mon"], []]
+AUG_OPS = {"+": 0, "-": 1, "*": 2, "/": 3, "//": 4, "%": 5}
+
+
+def render_block(stmts, lvl, out):
+    pad = "    " * lvl
+    if not stmts:
+        out.append(pad + "pass\n")
+    for st in stmts:
+        k = st[0]
+        if k == "assign":
+            out.append(f"{pad}{st[1]} = {st[2]}\n")
+        elif k == "aug":
+            out.append(f"{pad}{st[1]} {st[2]}= {st[3]}\n")
+        elif k == "write":
+            out.append(f"{pad}mon.write({st[1]})\n")
+        elif k == "return":
+            out.append(pad + ("return\n" if st[1] is None else f"return {st[1]}\n"))
+        elif k == "if":
+            for i, (c, b) in enumerate(st[1]):
+                out.append(f"{pad}{'if' if i == 0 else 'elif'} {c}:\n")
+                render_block(b, lvl + 1, out)
+            if st[2] is not None:
+                out.append(pad + "else:\n")
+                render_block(st[2], lvl + 1, out)
+        elif k == "while":
+            out.append(f"{pad}while {st[1]}:\n")
+            render_block(st[2], lvl + 1, out)
+        elif k == "for":
+            out.append(f"{pad}for {st[1]} in range({st[2]}):\n")
+            render_block(st[3], lvl + 1, out)
+        else:
+            raise ValueError(k)
+
+
+def render_items(items) -> str:
+    out = [HEADER]
+    for it in items:
+        if it[0] == "stmt":
+            render_block([it[1]], 0, out)
+        elif it[0] == "def":
+            out.append(f"def {it[1]}({', '.join(it[2])}):\n")
+            render_block(it[3], 1, out)
+        else:
+            out.append("while True:\n")
+            render_block(it[1], 1, out)
+    return "".join(out)
+
+
+def wire_block(stmts):
+    out = []
+    for st in stmts:
+        k = st[0]
+        if k == "assign":
+            out.append([0, st[1], W.enc_src(st[2])])
+        elif k == "aug":
+            out.append([1, st[1], AUG_OPS[st[2]], W.enc_src(st[3])])
+        elif k == "if":
+            out.append([2, [wire_block(b) for _, b in st[1]], [] if st[2] is None else [wire_block(st[2])]])
+        elif k == "while":
+            out.append([3, wire_block(st[2])])
+        elif k == "for":
+            out.append([4, st[1], wire_block(st[3])])
+        elif k == "return":
+            out.append([5] if st[1] is None else [5, W.enc_src(st[1])])
+        elif k == "write":
+            pass                                   # no typing effect
+        else:
+            raise ValueError(k)
+    return out
+
+
+def wire_items(items):
+    out = []
+    for it in items:
+        if it[0] == "stmt":
+            w = wire_block([it[1]])
+            if w:
+                out.append([0, w[0]])
+        elif it[0] == "def":
+            out.append([1, it[1], [[p, []] for p in it[2]], [], wire_block(it[3])])
+        else:
+            out.append([2, wire_block(it[1])])
+    return out
+
+
+class TypGen:
+    """programs for the declaration correspondence: every typing-relevant shape, not necessarily runnable"""
+    VARS = ["a", "b", "c", "d", "s", "u"]
+
+    def __init__(self, rng):
+        self.rng = rng
+        self.funcs = {}                 # name -> arity (defined so far or later)
+
+    def atom(self, names):
+        rng = self.rng
+        r = rng.random()
+        if r < 0.45 and names:
+            return rng.choice(names)
+        if r < 0.62:
+            return str(rng.choice([0, 1, 2, 3, 7, 10, 255]))
+        if r < 0.80:
+            return repr(rng.choice([0.5, 2.5, 1.0, 7.75]))
+        if r < 0.88:
+            return rng.choice(["True", "False"])
+        return repr(rng.choice(["x", "ab", ""]))
+
+    def expr(self, d, names, calls=True):
+        rng = self.rng
+        if d <= 0 or rng.random() < 0.3:
+            return self.atom(names)
+        r = rng.random()
+        if r < 0.40:
+            return f"({self.expr(d - 1, names, calls)} {rng.choice(['+', '+', '-', '*', '*', '/', '%'])} {self.expr(d - 1, names, calls)})"
+        if r < 0.48:
+            return f"({self.expr(d - 1, names, calls)} {rng.choice(['<', '>', '==', '!='])} {self.expr(d - 1, names, calls)})"
+        if r < 0.54:
+            return f"({self.expr(d - 1, names, calls)} {rng.choice(['and', 'or'])} {self.expr(d - 1, names, calls)})"
+        if r < 0.60:
+            return f"({rng.choice(['-', 'not '])}{self.expr(d - 1, names, calls)})"
+        if r < 0.68:
+            return f"({self.expr(d - 1, names, calls)} if {self.atom(names)} else {self.expr(d - 1, names, calls)})"
+        if r < 0.80:
+            f = rng.choice(["abs", "min", "max", "int", "float", "bool", "str", "analog_read"])
+            if f in ("min", "max"):
+                return f"{f}({self.expr(d - 1, names, calls)}, {self.expr(d - 1, names, calls)})"
+            if f == "analog_read":
+                return "analog_read(\"A0\")"
+            return f"{f}({self.expr(d - 1, names, calls)})"
+        if r < 0.94 and calls and self.funcs:
+            f = rng.choice(sorted(self.funcs))
+            n = self.funcs[f]
+            return f"{f}(" + ", ".join(self.expr(d - 1, names, calls) for _ in range(n)) + ")"
+        return self.atom(names)
+
+    def block(self, depth, names, in_fn, n=None):
+        rng = self.rng
+        out = []
+        calls = not in_fn                 # calls to user functions from inside function bodies are not modelled
+        for _ in range(n if n is not None else rng.choice([1, 2, 2, 3])):
+            r = rng.random()
+            if depth > 0 and r < 0.22:
+                brs = [(self.cond(names), self.block(depth - 1, names, in_fn)) for _ in range(rng.choice([1, 1, 2, 3]))]
+                els = self.block(depth - 1, names, in_fn) if rng.random() < 0.6 else None
+                out.append(("if", brs, els))
+            elif depth > 0 and r < 0.30:
+                out.append(("while", self.cond(names), self.block(depth - 1, names, in_fn)))
+            elif depth > 0 and r < 0.38:
+                out.append(("for", rng.choice(["i", "j", "a"]), rng.choice(["3", "a", "2"]), self.block(depth - 1, names, in_fn)))
+            elif r < 0.46:
+                out.append(("aug", rng.choice(names), rng.choice(["+", "-", "*", "+"]), self.expr(1, names, calls)))
+            elif in_fn and r < 0.58:
+                out.append(("return", None if rng.random() < 0.12 else self.expr(2, names, calls)))
+            else:
+                out.append(("assign", rng.choice(names), self.expr(rng.choice([0, 1, 2, 2]), names, calls)))
+        return out
+
+    def cond(self, names):
+        return f"{self.rng.choice(names)} {self.rng.choice(['<', '>', '!='])} {self.rng.choice([0, 1, 5])}"
+
+    def program(self):
+        rng = self.rng
+        items = []
+        nf = rng.choice([0, 0, 1, 1, 2])
+        fnames = ["f", "g"][:nf]
+        for f in fnames:
+            self.funcs[f] = rng.choice([0, 1, 1, 2, 2])
+        pending = list(fnames)
+        for _ in range(rng.choice([2, 3, 4, 5, 6])):
+            if pending and rng.random() < 0.4:
+                f = pending.pop(0)
+                params = ["p", "q"][:self.funcs[f]]
+                items.append(("def", f, params, self.block(2, params + ["z", "w", "a"], True)))
+            else:
+                items.append(("stmt", self.block(2, self.VARS, False, n=1)[0]))
+        for f in pending:
+            params = ["p", "q"][:self.funcs[f]]
+            items.append(("def", f, params, self.block(2, params + ["z", "w", "a"], True)))
+            if rng.random() < 0.7:
+                items.append(("stmt", ("assign", rng.choice(self.VARS), self.expr(2, self.VARS))))
+        if rng.random() < 0.6:
+            items.append(("loop", self.block(2, self.VARS + ["r", "t"], False)))
+        return items
+
+
+FIXED_PROGRAMS = [
+    [("stmt", ("assign", "a", "1")), ("stmt", ("assign", "a", "2.5"))],
+    [("stmt", ("assign", "a", "2.5")), ("stmt", ("assign", "a", "1"))],
+    [("stmt", ("assign", "a", "1")), ("stmt", ("aug", "a", "+", "0.5")), ("stmt", ("assign", "b", "a"))],
+    [("stmt", ("if", [("1 > 0", [("assign", "a", "1")])], [("assign", "a", "2.5")]))],
+    [("stmt", ("if", [("1 > 0", [("assign", "a", "2.5")]), ("2 > 0", [("assign", "a", "1"), ("assign", "b", "'x'")])], None))],
+    [("stmt", ("while", "1 > 2", [("assign", "a", "2.5"), ("assign", "b", "a")]))],
+    [("stmt", ("for", "i", "3", [("assign", "a", "i"), ("assign", "i", "2.5")]))],
+    [("def", "f", ["p"], [("return", "p")]), ("stmt", ("assign", "a", "f(1)")), ("stmt", ("assign", "b", "f(2.5)")), ("stmt", ("assign", "c", "f('x')"))],
+    [("stmt", ("assign", "a", "f(1)")), ("def", "f", ["p"], [("return", "p * 2.5")]), ("stmt", ("assign", "b", "f(True)"))],
+    [("def", "f", ["p", "q"], [("if", [("p > 1", [("return", "1")])], None), ("return", "2.5")]), ("stmt", ("assign", "a", "f(1, 2)"))],
+    [("def", "f", [], [("return", "True")]), ("def", "g", ["p"], [("assign", "p", "2.5"), ("return", "p")]), ("stmt", ("assign", "a", "f()")), ("stmt", ("assign", "b", "g(1)"))],
+    [("def", "f", ["p"], [("if", [("p > 1", [("assign", "z", "1")])], [("assign", "z", "2.5")]), ("return", "z")]),
+     ("def", "g", ["p"], [("while", "p > 1", [("assign", "z", "2.5"), ("assign", "p", "p - 1")]), ("return", "p")]),
+     ("stmt", ("assign", "a", "f(1)")), ("stmt", ("assign", "b", "g(1)"))],
+    [("stmt", ("assign", "s", "'x'")), ("stmt", ("assign", "a", "1")), ("stmt", ("assign", "b", "a * s")), ("stmt", ("assign", "c", "a"))],
+    [("loop", [("assign", "r", "analog_read(\"A0\")"), ("assign", "t", "r / 4.0"), ("if", [("r > 1", [("assign", "k", "t")])], None)])],
+    [("stmt", ("assign", "a", "1")), ("loop", [("assign", "a", "a + 0.5"), ("assign", "b", "a")])],
+    [("def", "f", ["p"], [("return", None)]), ("stmt", ("assign", "a", "f(1)"))],
+    [("def", "f", ["p"], [("return", "'x'"), ("return", "1")])],
+    [("def", "f", ["p"], [("return", "p")]), ("stmt", ("assign", "a", "f(1, 2)"))],
+]
+
+
+def norm_decls(l):
+    return sorted([str(n), str(t)] for n, t in l)
+
+
+def part_b(ctx, stats):
+    rng = ctx.rng
+    n = 1500 if ctx.tier == "thorough" else 260
+    progs = list(FIXED_PROGRAMS)
+    for _ in range(n):
+        progs.append(TypGen(rng).program())
+    srcs = [render_items(p) for p in progs]
+    impl = []
+    for i in range(0, len(srcs), 300):
+        impl += C.run_impl("c02_impl.py", {"cases": [["decls", s] for s in srcs[i:i + 300]]}, timeout=900)
+    model = ctx.model([[5, MODEL_CTX, wire_items(p)] for p in progs]) if ctx.exe else [None] * len(progs)
+    st = {"accepted": 0, "rejected": 0, "globals": 0, "loop_locals": 0, "functions": 0, "function_locals": 0, "params": 0,
+          "ctypes": {}}
+    nontrivial = set()
+    for p, src, r, m in zip(progs, srcs, impl, model):
+        body = src[len(HEADER):]
+        if "exc" in r:
+            st["rejected"] += 1
+            if r["exc"] != "ValueError":
+                ctx.fail(f"transpiler raised {r['exc']} (not ValueError)", {"script": src}, "ValueError or success", r, key="reject-kind")
+            if m is not None and not (m[0] == 1):
+                ctx.disagree("decls: real parser rejects, model accepts", body, "accepted", r)
+            continue
+        st["accepted"] += 1
+        if m is None:
+            continue
+        if m[0] != 0:
+            ctx.disagree("decls: model rejects/undecodable, real parser accepts", body, m, "accepted")
+            continue
+        user = {it[1] for it in p if it[0] == "def"}
+        fw_funcs = [f for f in r["funcs"] if f["name"] in user]
+        fw_setup = [f for f in r["funcs"] if f["name"] == "setup"]
+        fw_loop = [f for f in r["funcs"] if f["name"] == "loop"]
+        got = {
+            "globals": norm_decls(r["globals"]),
+            "setup_locals": norm_decls(fw_setup[0]["locals"]) if fw_setup else [],
+            "loop_locals": norm_decls(fw_loop[0]["locals"]) if fw_loop else [],
+            "functions": sorted([f["name"], f["ret"], [list(x) for x in (f["params"] or [])], norm_decls(f["locals"])] for f in fw_funcs),
+        }
+        exp = {
+            "globals": norm_decls([(C.wstr(x), dec_ctype(t)) for x, t in m[1]]),
+            "setup_locals": [],
+            "loop_locals": norm_decls([(C.wstr(x), dec_ctype(t)) for x, t in m[2]]),
+            "functions": sorted([C.wstr(f[0]), dec_ctype(f[1]), [[C.wstr(x), dec_ctype(t)] for x, t in f[2]],
+                                 norm_decls([(C.wstr(x), dec_ctype(t)) for x, t in f[3]])] for f in m[3]),
+        }
+        if got != exp:
+            first = next(k for k in got if got[k] != exp[k])
+            ctx.disagree(f"decls: declared C types differ ({first})", body, exp, {k: got[k] for k in got})
+            continue
+        st["globals"] += len(got["globals"])
+        st["loop_locals"] += len(got["loop_locals"])
+        st["functions"] += len(got["functions"])
+        for f in got["functions"]:
+            st["params"] += len(f[2])
+            st["function_locals"] += len(f[3])
+            st["ctypes"][f[1]] = st["ctypes"].get(f[1], 0) + 1
+        for _, t in got["globals"] + got["loop_locals"]:
+            st["ctypes"][t] = st["ctypes"].get(t, 0) + 1
+        if len(got["globals"]) + len(got["loop_locals"]) + len(got["functions"]) >= 2:
+            nontrivial.add(body)
+    stats["decl_programs"] = st
+    stats["decl_distinct_nontrivial"] = len(nontrivial)
+    return len(progs), [render_items(progs[len(FIXED_PROGRAMS)])[len(HEADER):], render_items(progs[-1])[len(HEADER):]]
+
+
 def run(ctx: C.Ctx):
     stats = {}
     n = part_a(ctx, stats)
-    ctx.coverage.update({"evaluations": n, "distribution": stats})
+    nb, samples_b = part_b(ctx, stats)
+    ctx.coverage.update({"evaluations": n + nb, "distribution": stats, "samples": samples_b})
